@@ -33,6 +33,25 @@ def check_retained(addrs, where):
     return bad
 
 
+def http_verdict(body):
+    """'ok' / 'fail' for bodies the reference decides, None otherwise"""
+    try:
+        tree, _n = G7.ref_decode(body, liberal_istream=True)
+        tree = G7.normalize(tree)
+    except (G7.NoParse, RecursionError):
+        return "fail"
+    if not (isinstance(tree, tuple) and tree[0] == "M"):
+        return "fail"
+    d = dict(tree[1])
+    if b"failure reason" in d:
+        return "fail"
+    if isinstance(d.get(b"warning message"), bytes):
+        return None
+    if b"peers" in d or isinstance(d.get(b"peers6"), bytes):
+        return "ok"
+    return None
+
+
 def oracle(case, line):
     """Property C14 evaluated on ONE implementation output line. Returns list of (klass, text)."""
     if line.startswith("CRASH") and ("TIMEOUT" in line or "rc=3" in line):
@@ -262,6 +281,38 @@ def oracle(case, line):
                 offered += G.ref_compact(added, 6)
         if not set(avail) <= set(offered):
             bad.append(("invented-address", "available list holds an address that is in no ut_pex payload"))
+    elif kind == "UP":
+        f = parse_kv(line)
+        evs = f.get("ev", "-")
+        for e in ([] if evs == "-" else evs.split(";")):
+            if e != "drop":
+                bad.append(("udp-unresolved-accepts", "a datagram was processed for a UDP tracker connection whose host name is not resolved yet: " + e[:80]))
+    elif kind == "H3":
+        head, _, st = line.partition(" | ")
+        segs = head.split(" / ")
+        anns, i = [], 2
+        while i + 3 < len(toks) + 0 and toks[i] == "A":
+            anns.append((toks[i + 1], [bytes.fromhex(t_) if t_ != "-" else b"" for t_ in toks[i + 2:i + 4] if t_ != "~"]))
+            i += 4
+        if len(segs) != len(anns):
+            return [("http-events", "number of reported announces differs from the number of announces")]
+        for (cfg, bodies), seg in zip(anns, segs):
+            names = [e.partition(":")[0] for e in ([] if seg == "-" else seg.split(";"))]
+            if cfg == "n":
+                if names != ["fail"]:
+                    bad.append(("http-no-family", "an announce with both address families blocked did not fail: " + seg[:60]))
+            elif cfg in "46" and bodies:
+                v = http_verdict(bodies[0])
+                if v == "fail" and names[:1] != ["fail"]:
+                    bad.append(("http-malformed-reported-success", "a malformed / failure reply to a single-family announce was not reported through the failure slot: " + seg[:60]))
+                if v == "ok" and names[:1] != ["success"]:
+                    bad.append(("http-good-reply-lost", "a good reply to a single-family announce was not reported as success: " + seg[:60]))
+            elif cfg == "b" and bodies:
+                v = [http_verdict(b) for b in bodies]
+                if v[0] == "fail" and names[:1] != ["retry"]:
+                    bad.append(("http-retry-skipped", "a failed first-family reply did not lead to the second-family request: " + seg[:60]))
+                if len(v) == 2 and None not in v and len(names) == 2 and names[1] != ("success" if "ok" in v else "fail"):
+                    bad.append(("http-two-family-verdict", "two replies (%s, %s) ended as %s" % (v[0], v[1], seg[:60])))
     elif kind == "H2":
         head, _, st = line.partition(" | ")
         evs = head.split(";")
@@ -269,24 +320,7 @@ def oracle(case, line):
         if len(evs) != len(bodies):
             return [("http-events", "number of reported outcomes differs from the number of replies")]
 
-        def verdict(body):
-            """'ok' / 'fail' for bodies the reference decides, None otherwise"""
-            try:
-                tree, _n = G7.ref_decode(body, liberal_istream=True)
-                tree = G7.normalize(tree)
-            except (G7.NoParse, RecursionError):
-                return "fail"
-            if not (isinstance(tree, tuple) and tree[0] == "M"):
-                return "fail"
-            d = dict(tree[1])
-            if b"failure reason" in d:
-                return "fail"
-            if isinstance(d.get(b"warning message"), bytes):
-                return None
-            if b"peers" in d or isinstance(d.get(b"peers6"), bytes):
-                return "ok"
-            return None
-        v = [verdict(b) for b in bodies]
+        v = [http_verdict(b) for b in bodies]
         names = [e.partition(":")[0] for e in evs]
         if v and v[0] == "fail" and names[0] != "retry":
             bad.append(("http-retry-skipped", "a failed first-family reply did not lead to the second-family request: " + evs[0][:80]))
@@ -356,8 +390,10 @@ def nontrivial(case, line):
         return any(t in line for t in ("connected:", "success:", "newpeers:", "fail:", "reset"))
     if k == "H":
         return not line.startswith("fail") or "ni=600 mi=300 c=0 i=0 d=0 sc=0 tid=-" not in line
-    if k == "H2":
+    if k in ("H2", "H3"):
         return "newpeers:" in line or "success:" in line
+    if k == "UP":
+        return "drop" in line
     if k == "DH":
         return "Q" in line or "e " in line
     if k in ("DF", "DS"):
